@@ -46,6 +46,7 @@ type Contract struct {
 	Modifies []string // heap names the function may modify; nil = unspecified (checked: nothing), "all"
 	ModSet   bool
 	Panics   bool // explicit panics allowed
+	PanicPost []*Clause
 	Pure     bool
 	NoInline bool
 	Trusted  bool // contract assumed, body not verified (listed)
@@ -266,6 +267,10 @@ func parseContracts(file string, pkgPath string) ([]*Contract, error) {
 			cur.Assumes = append(cur.Assumes, mk("assume"))
 		case "panics":
 			cur.Panics = true
+		case "panicpost":
+			// condition on the value of every explicit panic of the function (refer to it as `panicval`)
+			cur.Panics = true
+			cur.PanicPost = append(cur.PanicPost, mk("panicpost"))
 		case "pure":
 			cur.Pure = true
 		case "noinline":
@@ -538,8 +543,13 @@ func (pk *Pkg) injectAndRecheck(w *World) error {
 			cl.Expr = e
 			return &ast.AssignStmt{Lhs: []ast.Expr{ast.NewIdent("_")}, Tok: token.ASSIGN, Rhs: []ast.Expr{e}}, nil
 		}
+		if len(c.PanicPost) > 0 {
+			anyT := ast.NewIdent("any")
+			pre = append(pre, &ast.DeclStmt{Decl: &ast.GenDecl{Tok: token.VAR, Specs: []ast.Spec{&ast.ValueSpec{Names: []*ast.Ident{ast.NewIdent("panicval")}, Type: anyT}}}})
+			pre = append(pre, &ast.AssignStmt{Lhs: []ast.Expr{ast.NewIdent("_")}, Tok: token.ASSIGN, Rhs: []ast.Expr{ast.NewIdent("panicval")}})
+		}
 		var inj, injPost []ast.Stmt
-		for _, lst := range [][]*Clause{c.Requires, c.Assumes} {
+		for _, lst := range [][]*Clause{c.Requires, c.Assumes, c.PanicPost} {
 			for _, cl := range lst {
 				s, err := mkStmt(cl)
 				if err != nil {
